@@ -139,6 +139,48 @@ run_rows()
 """
 
 
+def is_literal(expr):
+    """True when the pool expression is a plain literal (the compiler sees the constant)."""
+    import ast
+    if expr in ("True", "False", "None"):
+        return True
+    try:
+        ast.literal_eval(expr)
+        return "opaque" not in expr and not expr[:1].isalpha()
+    except Exception:
+        return False
+
+
+def spec_src(exprs):
+    """Comparisons against a compile-time constant take specialised paths (EqInt/EqStr/EqConst/EqPtr, constant lists and
+    dicts, fused conditional jumps). For every literal pool entry j, compare every pool value with the literal spelled
+    out in the code, in all operand orders and forms; the answers must equal those of the generic a == b matrix."""
+    out = ["HASHES = [host_hash(x) for x in POOL]\n"]
+    lits = []
+    for j, e in enumerate(exprs):
+        if not is_literal(e):
+            continue
+        hashable = not e.startswith(("[", "{"))
+        lits.append(j)
+        out.append("def _spec_%d():\n" % j)
+        out.append("    r0 = \"\".join([\"1\" if x == %s else \"0\" for x in POOL])\n" % e)
+        out.append("    r1 = \"\".join([\"1\" if %s == x else \"0\" for x in POOL])\n" % e)
+        out.append("    r2 = \"\".join([\"1\" if x != %s else \"0\" for x in POOL])\n" % e)
+        out.append("    r3 = \"\".join([\"1\" if %s != x else \"0\" for x in POOL])\n" % e)
+        out.append("    r4 = \"\".join([\"1\" if x in [%s] else \"0\" for x in POOL])\n" % e)
+        out.append("    r5 = \"\".join([\"1\" if x in (%s,) else \"0\" for x in POOL])\n" % e)
+        out.append("    r6 = []\n    for x in POOL:\n        if x == %s:\n            r6.append(\"1\")\n        else:\n            r6.append(\"0\")\n" % e)
+        out.append("    r7 = []\n    for x in POOL:\n        if x != %s:\n            r7.append(\"1\")\n        else:\n            r7.append(\"0\")\n" % e)
+        out.append("    r8 = [(\"1\" if (not (x == %s)) else \"0\") for x in POOL]\n" % e)
+        if hashable:
+            out.append("    r9 = [(\"E\" if HASHES[i] == None else (\"1\" if POOL[i] in {%s: 1} else \"0\")) for i in range(N)]\n" % e)
+        else:
+            out.append("    r9 = []\n")
+        out.append("    return [r0, r1, r2, r3, r4, r5, \"\".join(r6), \"\".join(r7), \"\".join(r8), \"\".join(r9)]\n")
+        out.append("emit(\"spec\", %d, _spec_%d())\n" % (j, j))
+    return "".join(out), lits
+
+
 def make_case(groups, frozen):
     exprs = []
     meta = []
@@ -147,14 +189,15 @@ def make_case(groups, frozen):
             exprs.append(f)
             meta.append((gi, kind, f))
     pool_src = "POOL = [\n" + "".join("    %s,\n" % e for e in exprs) + "]\n"
+    spec, _lits = spec_src(exprs)
     if not frozen:
-        src = PRELUDE + pool_src + CHECKER
+        src = PRELUDE + pool_src + CHECKER + spec
         units = [{"file": "c09.star", "src": src}]
     else:
         lib = PRELUDE + pool_src.replace("POOL", "LIBPOOL")
         # half of the pool comes frozen from the library, half is built locally: mixed-representation pairs
         main = 'load("lib.star", "LIBPOOL", "R1", "R2", "E1", "E2", "F1", "F2")\n' + pool_src.replace("POOL", "LOCAL") + \
-            "POOL = [LIBPOOL[i] if i % 2 == 0 else LOCAL[i] for i in range(len(LOCAL))]\n" + CHECKER
+            "POOL = [LIBPOOL[i] if i % 2 == 0 else LOCAL[i] for i in range(len(LOCAL))]\n" + CHECKER + spec
         units = [{"file": "lib.star", "src": lib, "freeze": True}, {"file": "c09.star", "src": main}]
     return {"id": "frozen" if frozen else "plain", "cfg": {"dialect": "extended"}, "units": units}, meta
 
@@ -165,6 +208,7 @@ def check_laws(rep, cid, meta, evs, flavor, stats):
     hashes = None
     types = None
     keys = []
+    specs = {}
     for e in evs:
         if e[0] != "e":
             if e[0] == "r" and e[3] != "ok":
@@ -180,6 +224,8 @@ def check_laws(rep, cid, meta, evs, flavor, stats):
             rows[int(e[2][1:])] = [x[1:] for x in e[3:8]]
         elif tag == "keys":
             keys.append((int(e[2][1:]), int(e[3][1:]), e[4]))
+        elif tag == "spec":
+            specs[int(e[2][1:])] = [x[1:] for x in e[3][1:]]
     if len(rows) != n or hashes is None:
         rep.violation("c09:incomplete:" + cid, "law module emitted %d of %d rows" % (len(rows), n), {"case": cid})
         return
@@ -210,6 +256,28 @@ def check_laws(rep, cid, meta, evs, flavor, stats):
                 viol("ne", "a == b is %s and a != b is %s" % (eq(i, j), rows[i][NE][j]), [i, j])
             if rows[i][HEQ][j] != eq(i, j):
                 viol("hosteq", "a == b is %s but Value::equals says %s" % (eq(i, j), rows[i][HEQ][j]), [i, j])
+    # specialised comparison forms (constant operand visible to the compiler) agree with the generic matrix
+    nlit = sum(1 for m in meta if is_literal(m[2]))
+    if len(specs) != nlit:
+        rep.violation("c09:incomplete-spec:" + cid, "law module emitted %d of %d constant-operand rows" % (len(specs), nlit), {"case": cid})
+    FORMS = ["x == LIT", "LIT == x", "x != LIT", "LIT != x", "x in [LIT]", "x in (LIT,)", "if x == LIT", "if x != LIT", "not (x == LIT)", "x in {LIT: 1}"]
+    flip = {"0": "1", "1": "0"}
+    for j, rws in specs.items():
+        for k, row in enumerate(rws):
+            if not row:
+                continue
+            stats["spec_cells"] = stats.get("spec_cells", 0) + len(row)
+            for i in range(n):
+                if k == 9 and row[i] == "E":
+                    continue
+                want = eq(j, i) if k in (1, 3) else eq(i, j)
+                if want not in "01":
+                    continue
+                if k in (2, 3, 7, 8):
+                    want = flip[want]
+                if row[i] != want:
+                    viol("const-operand", "with LIT = %s spelled out in the code, `%s` gives %s but the same comparison between run-time values gives %s"
+                         % (ex(j), FORMS[k], row[i], want), [i, j])
     # transitivity through equivalence classes
     parent = list(range(n))
 
@@ -435,11 +503,13 @@ def run(tier):
         "order_groups": stats["order_groups"],
         "lt_triples_checked": stats["triples"],
         "sorted_calls_checked": stats["sorts"],
+        "constant_operand_cells_checked": stats.get("spec_cells", 0),
         "flavors": flavors,
         "variants": ["all values built in one module", "even entries frozen and loaded, odd entries local"],
     }
     rep.assumptions = ["the laws are the oracle; no reference implementation", "NaN is excluded from trichotomy/transitivity of < (IEEE unordered), but not from reflexivity of =="]
-    rep.finish(sanity_ok=stats["pairs"] > 1000 and stats["eq_classes"] > 10 and stats["key_checks"] > 10, sanity_msg="too few observations")
+    rep.finish(sanity_ok=stats["pairs"] > 1000 and stats["eq_classes"] > 10 and stats["key_checks"] > 10 and stats.get("spec_cells", 0) > 1000,
+               sanity_msg="too few observations")
 
 
 def replay(rep):
